@@ -23,6 +23,7 @@ type r4emCarried struct {
 }
 
 func ruleR4LoopCarried(c *Ctx) []Obligation {
+	r2LoopCtx = c
 	var obs []Obligation
 	nFields := 0
 	for _, p := range c.All {
